@@ -54,7 +54,8 @@ class SymmetricQuantizer(Function):
                 raise ValueError(
                     "When quantizing per-axis, the scale must hold one value per index of the quantization axis"
                 )
-        data = base / scale
+        # A null scale can only come from null values: map 0 / 0 to zero instead of propagating NaN
+        data = torch.nan_to_num(base / scale, nan=0.0)
         if not qtype.is_floating_point:
             data = torch.round(data)
         info = dtype_info(qtype.dtype)
